@@ -6,12 +6,13 @@ import ClaripyProofs.Lemmas.AST.CmpSound
 import ClaripyProofs.Lemmas.AST.AndEqNeSound
 import ClaripyProofs.Lemmas.AST.MinMaxSound
 import ClaripyProofs.Lemmas.AST.Built
+import Claripy.AST.RuleTies
 /-!
 # C01 — bit-vector and Boolean expressions mean exactly what the written operations say
 
 What is proved here, for EVERY width, constant, sub-expression and assignment (no bound):
 
-* `C01_rules_sound` — each of the 71 rewrite schemas of `Claripy.AST.R.all` (transcribed from
+* `C01_rules_sound` — each of the 75 rewrite schemas of `Claripy.AST.R.all` (transcribed from
   claripy/simplifications.py and ast/bool.py:If; the correspondence check ties them to the code) replaces
   a well-typed node by a tree with the same SMT-LIB value.
 * the bridge lemmas `Claripy.BV.*_spec` — the Python-int formulas of backend_concrete/bv.py used for eager
@@ -27,6 +28,43 @@ open Claripy.AST
 
 /-- Every schema of the rule table is sound (see `Claripy.AST.Sound`). -/
 theorem C01_rules_sound : ∀ s ∈ R.all, Sound s := all_sound
+
+/-! ### tables regenerated from claripy/simplifications.py on every run (`Claripy/Gen/SimpTables.lean`) -/
+
+/-- the complement pairs are sound: `Not(a(x, y))` and `b(x, y)` have the same value, for all operands and assignments -/
+theorem notPairs_sound : ∀ ab ∈ notPairs, ∀ (env : Env) (x y : Expr),
+    eval env (.app .not [.app ab.1 [x, y]]) ≠ .err → eval env (.app ab.2 [x, y]) = eval env (.app .not [.app ab.1 [x, y]]) := by
+  intro ab hab env x y hwt
+  simp only [notPairs, List.mem_cons, List.mem_nil_iff, or_false] at hab
+  rcases hab with h | h | h | h | h | h | h | h | h | h <;> subst h
+  · exact not_eq_sound { x := x, y := y } env rfl hwt
+  · exact not_ne_sound { x := x, y := y } env rfl hwt
+  · exact not_slt_sound { x := x, y := y } env rfl hwt
+  · exact not_sle_sound { x := x, y := y } env rfl hwt
+  · exact not_sgt_sound { x := x, y := y } env rfl hwt
+  · exact not_sge_sound { x := x, y := y } env rfl hwt
+  · exact not_ult_sound { x := x, y := y } env rfl hwt
+  · exact not_ule_sound { x := x, y := y } env rfl hwt
+  · exact not_ugt_sound { x := x, y := y } env rfl hwt
+  · exact not_uge_sound { x := x, y := y } env rfl hwt
+
+/-- **every entry of the code's `boolean_not_simplifier` chain is a proven rewrite**: either `Not(Not(c)) ⇒ c`
+(`N.not_not`) or one of the complement pairs of `notPairs_sound`.  The table is what the translator reads from the
+source now; an entry the proofs do not cover makes this theorem fail. -/
+theorem C01_not_table_proven : Claripy.Gen.SimpTables.notTable.all notEntryOK = true := by decide
+
+/-- every operation the code lets `Extract` distribute over is one of the three for which that is proved
+(`T5.extract_and/or/xor`, any number of operands) -/
+theorem C01_extract_distributable_proven :
+    Claripy.Gen.SimpTables.extractDistributable.all (fun s => (bitwiseOfPy s).isSome) = true := by decide
+
+/-- every operation the code flattens is one whose flattening the AC certificate checks decide -/
+theorem C01_flattenable_modelled :
+    Claripy.Gen.SimpTables.flattenable.all (fun s => flattenModelled.contains s) = true := by decide
+
+/-- no operation has a construction-time simplifier the model does not know of -/
+theorem C01_simplifier_ops_modelled :
+    Claripy.Gen.SimpTables.simplifierOps.all (fun s => simplifierOpsModelled.contains s) = true := by decide
 
 /-- values produced by the denotation are canonical bit-vectors of positive width -/
 theorem C01_eval_canonical (env : Env) (e : Expr) : (eval env e).WF := eval_wf env e
